@@ -233,11 +233,12 @@ class Sym:
                 else:
                     env.set(p, ('p', p))
         fr = _Frame(ctx, ('self',) if recv is not None else None, recv[1] if recv else None, 0)
+        was_linear = getattr(self, '_linear', False)
         self._linear = True  # merge environments at every join instead of splitting on returns / raises
         try:
             self._exec(func.node.body, env, fr, collect_final=True)
         finally:
-            self._linear = False
+            self._linear = was_linear
         t = env.get(var)
         return normalise(t) if t is not None else opaque(f'<unbound {var}>')
 
@@ -345,8 +346,21 @@ class Sym:
         if isinstance(st, ast.If):
             return self._exec_if(st, env, fr, rest, cont)
         if isinstance(st, (ast.For, ast.AsyncFor)):
+            returns_inside = not getattr(self, '_linear', False) and self._own_level(st.body + st.orelse, ast.Return)
+            summary = self._search_loop(st, env, fr) if returns_inside else None
             self._exec_for(st, env, fr)
-            return None
+            if not returns_inside:
+                return None
+            # the loop can end the function: result = (some iteration returns) ? its value : whatever follows the loop
+            c, v = summary if summary is not None else (opaque('<an iteration of the loop returns>'), opaque('<value returned inside the loop>'))
+            r = self._exec(list(rest), env, fr, cont)
+            if r[0] == 'ret':
+                return ('ret', ('cond', c, v, r[1]))
+            if r[0] == 'fall':
+                return ('ret', ('cond', c, v, NONE_T))
+            if r[0] == 'bottom':
+                return ('ret', v)
+            return ('ret', ('cond', c, v, opaque('<after the loop>')))
         if isinstance(st, ast.While):
             for n in ast.walk(st):
                 if isinstance(n, ast.Name) and isinstance(n.ctx, ast.Store):
@@ -373,6 +387,49 @@ class Sym:
                     return ('ret', ('union', (r[1], opaque('<except-return>'))))
             return r
         return None
+
+    def _own_level(self, stmts, kind) -> bool:
+        def walk(n):
+            if isinstance(n, kind):
+                return True
+            if isinstance(n, (ast.FunctionDef, ast.AsyncFunctionDef, ast.Lambda, ast.ClassDef)):
+                return False
+            return any(walk(c) for c in ast.iter_child_nodes(n))
+        return any(walk(s_) for s_ in stmts)
+
+    def _search_loop(self, st, env: _Env, fr: _Frame):
+        """`for x in seq: [locals...]; if test(x): [locals...]; return value` (nothing else leaves the loop):
+        (any(test(x) for x in seq), value of the first such x).  None if the loop has another shape."""
+        if st.orelse:
+            return None
+        body = [b for b in st.body if not (isinstance(b, ast.Expr) and isinstance(b.value, ast.Constant))]
+        if not body or not isinstance(body[-1], ast.If):
+            return None
+        pre, last = body[:-1], body[-1]
+        simple = (ast.Assign, ast.AnnAssign)
+        if not all(isinstance(p_, simple) for p_ in pre) or not last.body or not isinstance(last.body[-1], ast.Return):
+            return None
+        if not all(isinstance(p_, simple) for p_ in last.body[:-1]) or not all(isinstance(p_, (ast.Continue, ast.Pass)) for p_ in last.orelse):
+            return None
+        uid = next(_uid)
+        vars_ = self._bind_loop_vars(st.target, env, uid)
+        benv = _Env(env)
+        for v_, t_ in vars_.items():
+            benv.set(v_, t_)
+        for p_ in pre:
+            self._exec_stmt(p_, benv, fr, [])
+        c = self.ev_cond(last.test, benv, fr)
+        venv = _Env(benv)
+        for p_ in last.body[:-1]:
+            self._exec_stmt(p_, venv, fr, [])
+        ret = last.body[-1]
+        v = self.ev(ret.value, venv, fr) if ret.value is not None else NONE_T
+        seq = self.ev(st.iter, env, fr)
+        varnames = tuple(vars_[x] for x in sorted(vars_, key=lambda x: self._target_order(st.target).index(x)))
+        exists = ('call', 'any', (('map', varnames, c, seq, None),))
+        if any(_mentions(v, vn) for vn in varnames):
+            v = ('call', 'first', (('map', varnames, v, seq, c),))
+        return exists, v
 
     def _has_escape(self, stmts) -> bool:
         """The block contains a statement that leaves it other than by falling through (own level, nested defs excluded)."""
@@ -897,6 +954,12 @@ class Sym:
                             d.setdefault(item.optional_vars.id, []).append(('with', item.context_expr))
                 elif isinstance(n, ast.NamedExpr) and isinstance(n.target, ast.Name):
                     d.setdefault(n.target.id, []).append(('assign', n.value))
+                # in-place changes of a container local: its defining expression alone is not its value
+                if isinstance(n, ast.Subscript) and isinstance(n.ctx, (ast.Store, ast.Del)) and isinstance(n.value, ast.Name):
+                    d.setdefault(n.value.id, []).append(('mut', n))
+                elif isinstance(n, ast.Call) and isinstance(n.func, ast.Attribute) and isinstance(n.func.value, ast.Name) and \
+                        n.func.attr in ('append', 'add', 'extend', 'update', 'setdefault', 'pop', 'popitem', 'clear', 'insert', 'remove', 'discard', 'sort', 'reverse'):
+                    d.setdefault(n.func.value.id, []).append(('mut', n))
             func._local_defs = d
         return d
 
@@ -911,6 +974,17 @@ class Sym:
                 defs = self._local_defs(f).get(node.id)
                 if defs:
                     key = ('local', f.qualname, node.id)
+                    muts = [d_ for d_ in defs if d_[0] == 'mut']
+                    if muts and key not in self._stack and node.id not in f.params and sum(1 for d_ in defs if d_[0] != 'mut') == 1 and defs[0][0] == 'assign':
+                        # a container filled in place (loop with item stores / appends): its value at the end of the function
+                        self._stack.append(key)
+                        try:
+                            t = self.local_term(f, fr.ctx.recv, node.id)
+                        finally:
+                            self._stack.pop()
+                        return t if not is_opaque(t) else ('local', node.id)
+                    if muts:
+                        defs = [d_ for d_ in defs if d_[0] != 'mut'] + [('other', None)]
                     if len(defs) == 1 and defs[0][0] in ('assign', 'with') and key not in self._stack and node.id not in f.params:
                         self._stack.append(key)
                         try:
@@ -922,6 +996,26 @@ class Sym:
                             self._stack.pop()
                     return ('local', node.id)
                 f = f.parent
+        else:
+            # a free variable of a nested function that is a single-assignment local of an enclosing function: its defining expression
+            own = fr.ctx.func
+            if own is not None and own.parent is not None and node.id not in own.params and not self._local_defs(own).get(node.id):
+                f = own.parent
+                while f is not None:
+                    defs = self._local_defs(f).get(node.id)
+                    if defs or node.id in f.params:
+                        key = ('local', f.qualname, node.id)
+                        if defs and len(defs) == 1 and defs[0][0] == 'assign' and key not in self._stack and node.id not in f.params \
+                                and isinstance(defs[0][1], (ast.Compare, ast.BoolOp, ast.UnaryOp, ast.Call, ast.Constant, ast.Attribute, ast.Subscript, ast.JoinedStr)) and not self._own_level([defs[0][1]], (ast.Await, ast.Yield)):
+                            self._stack.append(key)
+                            try:
+                                sub = _Frame(Ctx(f, fr.ctx.recv), fr.self_term, fr.self_cls, fr.depth)
+                                sub.resolve_locals = True
+                                return self.ev(defs[0][1], _Env(), sub)
+                            finally:
+                                self._stack.pop()
+                        break
+                    f = f.parent
         r = self.prog.resolve_global(fr.ctx.func.module, node.id)
         if r is not None:
             if r[0] == 'class':
@@ -1355,7 +1449,7 @@ class Sym:
         if name in ('items', 'keys', 'values') and not args:
             return (name, recv)
         if name == 'encode':
-            return ('call', 'encode', (recv,) + tuple(args))
+            return ('call', 'encode', (recv,) + tuple(args) + tuple(('kw', k_, v_) for k_, v_ in sorted((kwargs or {}).items()) if k_ is not None))
         if name == 'format' and recv[0] == 'lit' and isinstance(recv[1], str) and not kwargs and recv[1].count('{}') == len(args) and recv[1].count('{') == len(args):
             pieces = recv[1].split('{}')
             parts = []
@@ -1725,8 +1819,19 @@ def _norm1(t):
         return t
     if k == 'call' and t[1] == 'encode':
         args = t[2]
-        if len(args) == 2 and args[1][0] == 'lit' and str(args[1][1]).lower().replace('-', '') == 'utf8':
-            return ('call', 'encode', (args[0],))
+
+        def _default(i, a):
+            # the defaults spelled out: encoding utf-8 (first positional / keyword), errors='strict'
+            if a[0] == 'lit' and i == 1:
+                return str(a[1]).lower().replace('-', '') == 'utf8'
+            if a[0] == 'lit' and i == 2:
+                return a[1] == 'strict'
+            if a[0] == 'kw' and a[2][0] == 'lit':
+                return (a[1] == 'encoding' and str(a[2][1]).lower().replace('-', '') == 'utf8') or (a[1] == 'errors' and a[2][1] == 'strict')
+            return False
+        kept = tuple(a for i, a in enumerate(args) if i == 0 or not _default(i, a))
+        if kept != args:
+            return ('call', 'encode', kept)
         return t
     if k == 'not':
         c = t[1]
